@@ -415,6 +415,19 @@ all_empty_md = SpecFun('all_empty_md', [], SeqSeqMdS, z3.BoolSort(),
                        plus=lambda a, b: z3.And(a, b))
 
 
+_rev = {}
+
+
+def rev_of(seq_sort):
+    """reverse of a sequence: rev(a ++ b) = rev(b) ++ rev(a)"""
+    key = str(seq_sort)
+    if key not in _rev:
+        _rev[key] = SpecFun('rev_%d' % len(_rev), [], seq_sort, seq_sort,
+                            zero=lambda: z3.Empty(seq_sort), one=lambda e: z3.Unit(e),
+                            plus=lambda a, b: z3.Concat(b, a))
+    return _rev[key]
+
+
 _vals_of = {}
 
 
